@@ -333,3 +333,11 @@ def run(ck):
         else:
             ck.violation("4", "T1-no-guard-across-user-code", b, descr, "a dispatcher reference is released while a loop-state guard is live (%s) and no keep-alive witness / emptiness invariant applies: if this is the last reference, the drop glue of the user's source and callback runs under the borrow, and any loop access from it (an Async adapter, an executor's futures) panics or aborts" % held, site=b.where(s.bb))
     ck.floor("4", "dispatcher release sites", ndrop, 8)
+    # ---- shared clauses demonstrated by seeding round 7 (the property broken from a distant module) --------------
+    from props import common as _c7
+    import importlib as _il
+    _m = lambda n: _il.import_module('props.' + n)
+    for _cl in ("1", "2", "3", "4"):
+        _c7.import_results(ck, _m("C20"), _cl, None, "3")  # a dead token stays dead: 16 generation bits, exact round trip
+    _c7.import_results(ck, _m("C02"), "4", "Channel", "2c")  # a closed channel is seen as closed whatever the batch bound
+
